@@ -39,6 +39,14 @@ const (
 	sessionTimeoutMs = 300_000
 )
 
+// clientIdentity: an opaque string the server carries byte for byte; the second session's is not valid UTF-8
+func clientIdentity(slot int) string {
+	if slot == 1 {
+		return "client-2\xff\xfe"
+	}
+	return fmt.Sprintf("client-%d", slot+1)
+}
+
 // "k%31" is what an escaping scheme writes for "k1" and what an unescaping scheme reads as "k1": the shadow
 // keys of the two records must not be confused whatever the encoding is
 var userKeys = []string{"k1", "k%31", "k/3"}
@@ -573,7 +581,7 @@ func (in *inst) Step(op int) (bool, *ev.Violation) {
 	}
 	switch o.kind {
 	case kCreate:
-		r, err := in.lc.CreateSession(&proto.CreateSessionRequest{Shard: shard, SessionTimeoutMs: sessionTimeoutMs, ClientIdentity: fmt.Sprintf("client-%d", o.slot+1)})
+		r, err := in.lc.CreateSession(&proto.CreateSessionRequest{Shard: shard, SessionTimeoutMs: sessionTimeoutMs, ClientIdentity: clientIdentity(o.slot)})
 		if err != nil {
 			return true, viol("create-session-failed", err.Error())
 		}
